@@ -5,7 +5,9 @@ package mocker
 // generated per run by checks/C07.py (zz_verif_c07_types_test.go) and registered in c07Types.
 //
 // line:  c07.hist T:<tid>:<name>/<sig>,... V:<tid>:<init> ... <op> <op> ...
-// ops :  ap:b:v:name:k  rt:b:v:name:k  wn:b:v:name:k:a  rs:b  dr:b  gc  ca:v  wd:v  od:tid
+// ops :  ap:b:v:name:k  rt:b:v:name:k  wn:b:v:name:k:a  rs:b  dr:b  gc  ca:v  wd:v  od:tid  mx
+//        kind prefix `h`: through the CachedInterfaceMocker handle kept from the first b.Interface(&v) of the history;
+//        kind suffix `x`: with a callback whose signature does not fit the method (must be rejected).
 // one observation per op, joined by ';'.
 
 import (
@@ -20,6 +22,7 @@ import (
 	"testing"
 	"time"
 
+	"github.com/tencent/goom/internal/hack"
 	"github.com/tencent/goom/internal/zzverif/vh"
 )
 
@@ -169,6 +172,8 @@ func c07class(r interface{}) string {
 		return "nomatch"
 	case strings.Contains(msg, "not found on"):
 		return "nomethod"
+	case strings.Contains(msg, "interface mock apply error"):
+		return "applyerr"
 	}
 	return vh.Class(msg)
 }
@@ -196,11 +201,45 @@ func c07sig(t *c07Type, name string) int {
 	return 0
 }
 
+// callbacks that keep *IContext first but do not fit the method (wrong count / wrong slot size)
+func c07bad(sig, k int) interface{} {
+	switch sig {
+	case 0:
+		if k%2 == 0 {
+			return func(_ *IContext, x, y int) int { return 1 }
+		}
+		return func(_ *IContext, x int8) int { return 2 }
+	case 1:
+		if k%2 == 0 {
+			return func(_ *IContext, x int) int { return 3 }
+		}
+		return func(_ *IContext, x int, s int) int { return 4 }
+	}
+	if k%2 == 0 {
+		return func(_ *IContext, x int) string { return "5" }
+	}
+	return func(_ *IContext, x, y int) string { return "6" }
+}
+
 //go:noinline
-func c07mock(b *Builder, v c07Var, kind, name string, k, a int) string {
+func c07mock(h *CachedInterfaceMocker, v c07Var, kind string, fits bool, name string, k, a int) string {
 	return c07catch(func() string {
-		im := b.Interface(v.t.ptr(v.slot)).Method(name)
+		im := h.Method(name)
 		sig := c07sig(v.t, name)
+		if !fits {
+			switch kind {
+			case "ap":
+				im.Apply(c07bad(sig, k))
+			default:
+				w := im.As(c07bad(sig, k))
+				if sig == 2 {
+					w.Return("s" + strconv.Itoa(k))
+				} else {
+					w.Return(k*100000 + 99)
+				}
+			}
+			return "ok"
+		}
 		switch kind {
 		case "ap":
 			switch sig {
@@ -247,6 +286,7 @@ func c07run(toks []string) string {
 	var vars []c07Var
 	used := map[int]int{}
 	builders := map[int]*Builder{}
+	handles := map[[2]int]*CachedInterfaceMocker{}
 	dropped := map[int]bool{}
 	var obs []string
 	c07mu.Lock()
@@ -300,7 +340,12 @@ func c07run(toks []string) string {
 			used[tid]++
 			t.set(v.slot, init)
 			vars = append(vars, v)
-		case "ap", "rt", "wn":
+		case "ap", "rt", "wn", "apx", "rtx", "hap", "hrt", "hwn", "hapx", "hrtx":
+			kind := f[0]
+			viaH := strings.HasPrefix(kind, "h")
+			kind = strings.TrimPrefix(kind, "h")
+			fits := !strings.HasSuffix(kind, "x")
+			kind = strings.TrimSuffix(kind, "x")
 			b, _ := strconv.Atoi(f[1])
 			vi, _ := strconv.Atoi(f[2])
 			k, _ := strconv.Atoi(f[4])
@@ -314,7 +359,22 @@ func c07run(toks []string) string {
 			if builders[b] == nil {
 				builders[b] = Create()
 			}
-			obs = append(obs, c07mock(builders[b], vars[vi], f[0], f[3], k, a))
+			v := vars[vi]
+			var h *CachedInterfaceMocker
+			if viaH {
+				if handles[[2]int{b, vi}] == nil {
+					handles[[2]int{b, vi}] = builders[b].Interface(v.t.ptr(v.slot))
+				}
+				h = handles[[2]int{b, vi}]
+			} else {
+				bb := builders[b]
+				r := c07catch(func() string { h = bb.Interface(v.t.ptr(v.slot)); return "" })
+				if r != "" {
+					obs = append(obs, r)
+					continue
+				}
+			}
+			obs = append(obs, c07mock(h, v, kind, fits, f[3], k, a))
 		case "rs":
 			b, _ := strconv.Atoi(f[1])
 			if dropped[b] {
@@ -329,6 +389,11 @@ func c07run(toks []string) string {
 			b, _ := strconv.Atoi(f[1])
 			builders[b] = nil
 			dropped[b] = true
+			for hk := range handles {
+				if hk[0] == b {
+					delete(handles, hk)
+				}
+			}
 			obs = append(obs, "ok")
 		case "gc":
 			c07churn()
@@ -373,6 +438,8 @@ func c07run(toks []string) string {
 			default:
 				obs = append(obs, "torn")
 			}
+		case "mx":
+			obs = append(obs, strconv.Itoa(hack.MaxMethod))
 		case "od":
 			tid, _ := strconv.Atoi(f[1])
 			t := c07Types[tid]
